@@ -1,8 +1,8 @@
 (* C17 — The registered handler keeps receiving messages on every later connection.
    Statements only; proofs in HandlerSys_proofs.v. The model [run] (HandlerSys.v) is the labelled
    transition system of RetryClient.Handle (retryclient.go:92-99), SetClient (276-288), Connect
-   (418-441), BaseClient.Handle (client.go:92-97), the reader's per-message handler read
-   (serve.go:77-82, 85-90, 131-136) and the reconnect loop (reconnclient.go:87-160). A schedule is
+   (428-451), BaseClient.Handle (client.go:92-97), the reader's per-message handler read
+   (serve.go:77-82, 86-91, 132-137) and the reconnect loop (reconnclient.go:87-160). A schedule is
    ANY list of labels (any number of reconnects, Handle anywhere); [run ls = Next s evs] says the
    schedule is possible and produced the delivery log [evs]. [last_handle], [current_of],
    [count_inbound], [spec_events], [spec_current] are functions of the history alone. *)
@@ -44,6 +44,21 @@ Theorem C17_delivery : forall pre k m post s evs,
   nth_error evs (count_inbound pre) = Some (Deliver k m (last_handle pre)).
 Proof. exact delivery. Qed.
 
+(* "whenever it is replaced" includes a handler that replaces the handler from inside its own
+   callback (Handle on the reader goroutine): the message being delivered goes to the handler
+   registered before — every later one, by C17_delivery, to the new one *)
+Theorem C17_delivery_reentrant : forall pre k m h' post s evs,
+  run (pre ++ B_inbound_handle k m h' :: post) = Next s evs ->
+  current_of pre = Some k ->
+  last_handle pre <> None /\
+  nth_error evs (count_inbound pre) = Some (Deliver k m (last_handle pre)).
+Proof. exact delivery_reentrant. Qed.
+
+(* ... and it never blocks the reader or the RetryClient: no schedule of the model deadlocks
+   (the reader does not hold its client's lock while the handler runs) *)
+Theorem C17_no_deadlock : forall ls, run ls <> Deadlocked.
+Proof. exact no_deadlock. Qed.
+
 (* the same as the executable predicate the harness evaluates on the implementation's log *)
 Theorem C17_delivery_predicate : forall ls s evs,
   run ls = Next s evs -> meets (spec_current ls) evs = true.
@@ -76,24 +91,29 @@ Proof. exact stale_on_replaced_connection. Qed.
 
 (* the model distinguishes the implementation from its realistic breakages *)
 Theorem C17_breakages_refuted :
-  (exists ls, breaks {| i_store := StoreAlways; i_forward := true; i_install := InstallNever; i_setclient_clears := false |} ls) /\
-  (exists ls, breaks {| i_store := StoreAlways; i_forward := true; i_install := InstallAfterReturn; i_setclient_clears := false |} ls) /\
-  (exists ls, breaks {| i_store := StoreAlways; i_forward := true; i_install := InstallFirstOnly; i_setclient_clears := false |} ls) /\
-  (exists ls, breaks {| i_store := StoreAlways; i_forward := false; i_install := InstallAtBegin; i_setclient_clears := false |} ls) /\
-  (exists ls, breaks {| i_store := StoreIfNoClient; i_forward := true; i_install := InstallAtBegin; i_setclient_clears := false |} ls) /\
-  (exists ls, breaks {| i_store := StoreNever; i_forward := true; i_install := InstallAtBegin; i_setclient_clears := false |} ls) /\
-  (exists ls, breaks {| i_store := StoreAlways; i_forward := true; i_install := InstallAtBegin; i_setclient_clears := true |} ls) /\
+  (exists ls, breaks {| i_store := StoreAlways; i_forward := true; i_install := InstallNever; i_setclient_clears := false; i_lock_through_callback := false |} ls) /\
+  (exists ls, breaks {| i_store := StoreAlways; i_forward := true; i_install := InstallAfterReturn; i_setclient_clears := false; i_lock_through_callback := false |} ls) /\
+  (exists ls, breaks {| i_store := StoreAlways; i_forward := true; i_install := InstallFirstOnly; i_setclient_clears := false; i_lock_through_callback := false |} ls) /\
+  (exists ls, breaks {| i_store := StoreAlways; i_forward := false; i_install := InstallAtBegin; i_setclient_clears := false; i_lock_through_callback := false |} ls) /\
+  (exists ls, breaks {| i_store := StoreIfNoClient; i_forward := true; i_install := InstallAtBegin; i_setclient_clears := false; i_lock_through_callback := false |} ls) /\
+  (exists ls, breaks {| i_store := StoreNever; i_forward := true; i_install := InstallAtBegin; i_setclient_clears := false; i_lock_through_callback := false |} ls) /\
+  (exists ls, breaks {| i_store := StoreAlways; i_forward := true; i_install := InstallAtBegin; i_setclient_clears := true; i_lock_through_callback := false |} ls) /\
+  (exists ls, (exists s evs, run_loop ls = Next s evs) /\
+              run_gen {| i_store := StoreAlways; i_forward := true; i_install := InstallAtBegin;
+                         i_setclient_clears := false; i_lock_through_callback := true |} ls = Deadlocked) /\
   (forall ls, ~ breaks faithful ls).
 Proof.
   repeat split; [exact no_install_refuted|exact late_install_refuted|exact first_only_refuted|
                  exact no_forward_refuted|exact store_if_no_client_refuted|exact no_store_refuted|
-                 exact setclient_clears_refuted|exact faithful_not_broken].
+                 exact setclient_clears_refuted|exact lock_through_callback_refuted|exact faithful_not_broken].
 Qed.
 
 Print Assumptions C17_handler_installed.
 Print Assumptions C17_handle_forwards.
 Print Assumptions C17_invariant.
 Print Assumptions C17_delivery.
+Print Assumptions C17_delivery_reentrant.
+Print Assumptions C17_no_deadlock.
 Print Assumptions C17_delivery_predicate.
 Print Assumptions C17_reconnect_transparent.
 Print Assumptions C17_never_dropped.
